@@ -41,7 +41,7 @@ META.update({
     "C04": dict(
         built=True, bounded=True, level="other", min_obligations=100, design="§6 C04",
         claim=("PROVED (all strings, unbounded): for the datatype modules within PyVC's reach (see functions_under_contract) the accept language of validate_encoded and of decode equals the oracle grammar "
-               "on document fields, modulo the listed ~ cells. BOUNDED: the remaining datatypes (J, B, alignments, lists), validate_decoded∘decode, and the line/record level "
+               "on document fields, modulo the listed ~ cells; the P-line list-size rule (n-1, n or a single '*' overlaps, for all sizes). BOUNDED: the remaining datatypes (J, B, alignments, lists), validate_decoded∘decode, and the line/record level "
                "(field counts, tags, predefined tag types, cross-field rules) by exhaustive short strings and single-point mutations against specs/grammar.py."),
         note="Fields are quantified over [^\\t\\n]* (the readers split on TAB/NEWLINE). The regular part is exact; JSON well-formedness, numeric ranges of B arrays and record-level rules are bounded only." + B_NOTE,
         technique=TECH_PB,
@@ -56,7 +56,7 @@ META.update({
     "C07": dict(
         built=True, bounded=True, level="other", min_obligations=100, design="§6 C07",
         claim=("PROVED (all strings): for the datatype modules within reach, every exception class that can escape decode/validate_encoded/unsafe_decode is a subclass of gfapy.Error "
-               "(implicit IndexError/ValueError/AttributeError paths are generated, not ignored). BOUNDED: lines, documents and API strings (short strings exhaustively, single-point mutations, levels 0-3)."),
+               "(implicit IndexError/ValueError/AttributeError paths are generated, not ignored); Path._compute_required_links indexes its lists in range for every pair of list sizes (InconsistencyError otherwise). BOUNDED: lines, documents and API strings (short strings exhaustively, single-point mutations, levels 0-3)."),
         note="Termination and recursion depth are not decided (partial correctness); RecursionError on pathological nesting is a known limit of the technique." + B_NOTE,
         technique=TECH_PB,
         assumptions=["arguments are str (the property quantifies over strings)", "termination not proved"]),
@@ -180,24 +180,39 @@ ALL = ["C%02d" % i for i in range(1, 21)]
 
 # ---- deductive coverage added after the first bounded pass: which properties now also carry proof obligations
 _P = {
-    "C01": (2, "PROVED: _parse_gfa_tag returns exactly the name / datatype / value substrings of an accepted tag (the tag reappears unchanged). "),
-    "C02": (15, "PROVED (all list contents, unbounded): _delete_reference removes exactly one occurrence keeping the order of the others (loop invariant), _add_reference adds exactly one occurrence at the end / front; no KeyError/IndexError. "),
-    "C05": (10, "PROVED: the list helper _delete_reference that the removal cascade relies on (see C02). "),
+    "C01": (12, "PROVED: _parse_gfa_tag returns exactly the name / datatype / value substrings of an accepted tag (the tag reappears unchanged); Multiline._split writes, for every tag of the merged header, "
+                "one H line carrying that name, its DECLARED datatype and its value at the header's level (loop invariant, all tag counts); integer_type chooses the array subtype. "),
+    "C02": (35, "PROVED (all list contents, unbounded): _delete_reference removes exactly one occurrence keeping the order of the others (loop invariant), _add_reference adds exactly one occurrence at the end / front; "
+                "UpdateReferences.__update_reference_in_list, removal case: afterwards the list holds no None and no mention of the removed line, every other element survives; replacement case: same length, same "
+                "objects, every mention re-pointed (loop invariants over a list that is written while it is iterated); no KeyError/IndexError. "),
+    "C03": (8, "PROVED: when a placeholder line is replaced (__update_reference_in_list, replacement case) every oriented reference to it in the list is re-pointed and its orientation is inverted iff the "
+               "real line is the complement form - for every list, so independently of which of the two arrived first. "),
+    "C05": (40, "PROVED: the list helpers the removal cascade relies on (_delete_reference; __update_reference_in_list drops EVERY mention of a removed line and nothing else); FieldData.delete removes value and "
+                "datatype of a tag (the tag is as if never present) and routes the identifier tag of a connected link / containment through the renaming path. "),
     "C06": (70, "PROVED (all lengths and positions): link and containment coordinates equal the specification (each coordinate carries $ iff it equals the segment length), beg/end accessors, LastPos subtraction, "
                 "the E-line readings (_segment_role, _is_sid1_from, oriented_from/to, pos, overlap direction), CIGAR reference/query lengths as weighted sums (loop invariants), interval classification. "),
-    "C10": (190, "PROVED (frame obligations, all inputs): for ~200 functions of the read-only API the modular effect analysis of the real source shows writes(F) = {} modulo five named benign caches; "
-                 "CIGAR.complement additionally has a functional + frame contract (fresh result, receiver unchanged, loop invariant); WriterWoSequence.__str__ restores its temporary write. "),
-    "C12": (30, "PROVED (all CIGAR lengths, unbounded): complement()[k] = swap(self[n-1-k]) with lengths kept and the receiver unchanged; length_on_reference / length_on_query are the weighted sums; "
-                "Operation equality; is_same / is_complement / is_eql are the stated Boolean functions; E-line overlap direction; symbol inversion. "),
+    "C08": (200, "PROVED: FieldData._set_existing_field raises only before its first write (5 receiver classes, ghost 'dirty' flag); Creators.__add_line_unknown_version: a line that cannot be parsed, a header that "
+                 "cannot be merged or that names an unsupported version is refused with version, guess, queue, header count untouched. "),
+    "C09": (200, "PROVED: _set_existing_field re-enters the registry only under a free identifier (or the line's own); FieldData.delete of the identifier tag of a connected line goes through that path. "),
+    "C10": (240, "PROVED (frame obligations, all inputs): for ~200 functions of the read-only API the modular effect analysis of the real source shows writes(F) = {} modulo five named benign caches; "
+                 "every field decoder is undecorated and write-free; CIGAR.complement additionally has a functional + frame contract (fresh result, receiver unchanged, loop invariant); WriterWoSequence.__str__ restores its temporary write. "),
+    "C12": (70, "PROVED (all CIGAR lengths, unbounded): complement()[k] = swap(self[n-1-k]) with lengths kept and the receiver unchanged; length_on_reference / length_on_query are the weighted sums; "
+                "Operation equality; is_same / is_complement / is_eql are the stated Boolean functions; E-line overlap direction; symbol inversion; the number of links a path requires and that no index leaves "
+                "its list; replacement of a placeholder link flips the recorded direction iff the real link is its complement. "),
+    "C13": (18, "PROVED: Creators.__add_line_unknown_version decides the version as the stated function of the arriving line's kind, processes the queue once and only after the version is set; "
+                "Gfa.from_file hands vlevel, version and dialect unchanged to the constructor and reads the file once into that object. "),
     "C14": (15, "PROVED kernels: from_end / to_end, symbol inversion, connectivity symbol, CIGAR length sums. "),
     "C15": (12, "PROVED: _auto_select_distribute_end satisfies the documented clauses for all sizes; the window arithmetic of _distribute_links covers every neighbour (SMT lemma, also in Lean). "),
     "C16": (5, "PROVED kernels: from_end / to_end end types, connectivity symbol. "),
-    "C19": (190, "PROVED (frame): clone() and every other read-only function writes nothing to the receiver (effect analysis, see C10). "),
-    "C20": (12, "PROVED (all integer ranges): integer_type returns the smallest subtype of the right signedness that holds [lo,hi] and raises ValueError iff none does. "),
+    "C19": (240, "PROVED (frame): clone() and every other read-only function writes nothing to the receiver, the object returned by clone() shares no attribute value with it, and the field decoders are "
+                 "undecorated write-free functions (no memoised mutable result shared between lines) (effect analysis, see C10). "),
+    "C20": (30, "PROVED (all integer ranges): integer_type returns the smallest subtype of the right signedness that holds [lo,hi] and raises ValueError iff none does; Multiline._split keeps the declared datatype of "
+                "every header tag; FieldData.delete forgets the datatype of a deleted tag. "),
 }
 for _p, (_n, _txt) in _P.items():
     META[_p]["tierP"] = True
     META[_p]["min_obligations"] = _n
-    META[_p]["level"] = "other"
+    if META[_p]["level"] in ("exploration",):
+        META[_p]["level"] = "other"
     META[_p]["claim"] = _txt + META[_p]["claim"]
     META[_p]["technique"] = TECH_PB
